@@ -277,9 +277,14 @@ type Comm struct {
 	// FailSend (optional): the transport reports an error for this send although the message went out
 	// (e.g. one recipient unreachable). The library only logs it.
 	FailSend func() bool
+	// Before (optional) runs first inside SendConsensusMessage: a slow transport.
+	Before func(ctx context.Context, m *interfaces.ConsensusRawMessage)
 }
 
 func (c *Comm) SendConsensusMessage(ctx context.Context, to []primitives.MemberId, m *interfaces.ConsensusRawMessage) error {
+	if c.Before != nil {
+		c.Before(ctx, m)
+	}
 	tos := make([]string, len(to))
 	for i, t := range to {
 		tos[i] = string(t)
